@@ -382,3 +382,13 @@ impl ZerokitMerkleProof for PmTreeProof {
         self.proof.compute_root_from(leaf)
     }
 }
+
+#[cfg(zerokit_verif)]
+impl PmTreeProof {
+    /// Verification hook: builds a proof from (sibling, direction) pairs, bottom to top.
+    pub fn verif_from_parts(parts: Vec<(Fr, u8)>) -> Self {
+        PmTreeProof {
+            proof: pmtree::tree::MerkleProof(parts),
+        }
+    }
+}
